@@ -66,3 +66,19 @@ fn k10_parse_comment() {
     let r2 = Parser::new(vec![tok(TokenKind::Comment, 0), tok(TokenKind::Eol, 1)], kani::any(), kani::any()).parse();
     assert!(matches!(r2, Ok(None)), "comment-only line -> no rule");
 }
+
+// ---- C02: the one numeric-literal conversion that can be called without going through the parser
+//% props=C02 tier=thorough kind=B bound="Number tokens of exactly 20 decimal digits (usize::MAX has 20 digits)" timeout=2400 mem=24 pair=Parser::get_var_assign clause="converting a variable number written by the user must not panic"
+#[kani::proof]
+#[kani::unwind(22)]
+fn k2c_get_var_assign_20_digits() {
+    let d: [u8; 20] = kani::any();
+    let mut i = 0;
+    while i < 20 { kani::assume(d[i] >= b'0' && d[i] <= b'9'); i += 1; }
+    let s = unsafe { core::str::from_utf8_unchecked(&d) };
+    let number = Token { kind: TokenKind::Number, value: Rc::from(s), position: pos0() };
+    let chr = Item::new(ParseElement::Matrix(Modifiers::new(), None), pos0());
+    let mut p = Parser::new(vec![tok(TokenKind::Eol, 0)], 0, 0);
+    let it = p.get_var_assign(number, &chr);
+    assert!(matches!(it.kind, ParseElement::Matrix(_, Some(_))));
+}
